@@ -710,6 +710,10 @@ pub fn check(data: &[u8], man: &Value, opts: &[String]) -> Out {
     }
     // ---------------------------------------------------------------- C09 / C10
     super::layout::check(&font, man, &gid_of, &axes, &mut out);
+    // ---------------------------------------------------------------- C19
+    if man.get("boundary").is_some() {
+        super::boundary::check(&font, man, &gid_of, &mut out);
+    }
     // ---------------------------------------------------------------- C18
     if man.get("expect_names").is_some() {
         super::names::check(&font, man, &axes, &mut out);
